@@ -2,6 +2,7 @@ From GV Require Import Common.Outcome C10.GrmModel C10.GrmSpec C10.GrmProofs.
 From GV Require Import C10.YpExports.
 
 From GV Require Import C10.YpRoundExports.
+From GV Require Import C10.YpPrecUsedSpec C10.YpPrecUsed.
 Theorem C10_grm_build_faithful : build_faithful_stmt.
 Proof. exact build_faithful. Qed.
 Print Assumptions C10_grm_build_faithful.
@@ -194,3 +195,26 @@ Print Assumptions C10round_action_literal_brace_refuted.
 Theorem C10round_actiontype_layout_refuted : actiontype_layout_refuted_stmt.
 Proof. exact actiontype_layout_refuted. Qed.
 Print Assumptions C10round_actiontype_layout_refuted.
+
+(* unused_symbols and %prec (/repo 4ff022d; C03's build clause depends on it): with the repaired walk a
+   token named by %prec of a reachable production is never reported unused; the pinned walk is refuted on
+   the textbook unary-minus grammar; a %prec token of an unreachable production is still reported *)
+Theorem C10_prec_token_is_used : prec_token_is_used_stmt.
+Proof. exact prec_token_is_used. Qed.
+Print Assumptions C10_prec_token_is_used.
+
+Theorem C10_symbol_token_is_used : symbol_token_is_used_stmt.
+Proof. exact symbol_token_is_used. Qed.
+Print Assumptions C10_symbol_token_is_used.
+
+Theorem C10_warnings_are_unused : warnings_are_unused_stmt.
+Proof. exact warnings_are_unused. Qed.
+Print Assumptions C10_warnings_are_unused.
+
+Theorem C10_prec_only_token_unused_refuted : prec_only_token_unused_refuted_stmt.
+Proof. exact prec_only_token_unused_refuted. Qed.
+Print Assumptions C10_prec_only_token_unused_refuted.
+
+Theorem C10_prec_token_unreachable_reported : prec_token_unreachable_reported_stmt.
+Proof. exact prec_token_unreachable_reported. Qed.
+Print Assumptions C10_prec_token_unreachable_reported.
